@@ -237,6 +237,9 @@ def run(ctx):
                 'hard eval, hard/Gumbel-hard train, update_softmax_options(hard=...), temperatures {.05,.1,.5,1,2,5,20}, coefficients = distinct multiples of 1/16 (10% ties), '
                 'and EVERY winner combination under hard selection when all blocks have <= 4 branches; one case = (network, setting); non-trivial = some block has two branches of different cost; '
                 'distinct by (network, sampled coefficients)')
+    ctx.assumptions += ['per-layer costs are inputs of the model: CostSpec lookups spec[(type(layer), vars(layer))] on the user model at every call site (forward hooks)',
+                        'sampled coefficients theta_alpha are observed after the forward pass and fed to the model (sampling itself: C10)',
+                        'float32 accumulation of get_cost compared within 2^-18 relative; exported-network metrics are integers, compared exactly']
     rng = ctx.rng
     nets = []
     n_small, n_large, n_diff = (10, 8, 4) if ctx.quick else (40, 40, 12)
